@@ -34,6 +34,8 @@ func payGenesis() *types.AppState {
 	A, B, C, V := K("alice").Addr, K("bob").Addr, K("carol").Addr, K("vown").Addr
 	M := types.HexToAddress(PayMsAddr)
 	g.Bal(A, 0, e18(1000000)).Bal(B, 0, e18(1000000)).Bal(C, 0, e18(50)).Bal(M, 0, e18(10000)).Bal(V, 0, e18(1000000))
+	// erin holds nothing but 1 BIP plus the fee of one plain send: one transaction empties the account
+	g.Bal(K("erin").Addr, 0, new(big.Int).Add(e18(1), I(DistinctCommission().Send)))
 	// COINA: volume 1,000,000; reserve 100,000 BIP; crr 50
 	g.Coin(PayCoinA, "COINA", e18(1000000), e18(100000), 50, e18(100000000), &A)
 	g.Bal(A, PayCoinA, e18(300000)).Bal(B, PayCoinA, e18(300000)).Bal(C, PayCoinA, e18(100000)).Bal(M, PayCoinA, e18(100000)).Bal(V, PayCoinA, e18(200000))
@@ -78,7 +80,7 @@ func init() {
 			Genesis:    payGenesis,
 			Envs:       stdEnvs(),
 			UsesReplay: true,
-			Accounts:   []*Key{A, B, C, D, K("vown")},
+			Accounts:   []*Key{A, B, C, D, K("vown"), K("erin")},
 		}
 		w.Menu = []Tx{
 			good,
@@ -132,6 +134,8 @@ func init() {
 				t.Payload = []byte("hello")
 				return t
 			}(),
+			send("E->A 1 BIP (empties the account: no coin left, nonce 1)", K("erin"), A.Addr, 0, e18(1), 0),
+			send("A->E 10 BIP", A, K("erin").Addr, 0, e18(10), 0),
 		}
 		// "C uses B's proof": the proof was made for B's address
 		for i := range w.Menu {
